@@ -16,6 +16,9 @@ type Spelling struct {
 	// Rnd != nil: a random re-spelling of the same value: insignificant white space,
 	// \uXXXX escapes (incl. surrogate pairs), \/ and the short escapes.
 	Rnd *rand.Rand
+	// WsOnly: with Rnd != nil, only insignificant white space is varied; strings are spelled
+	// canonically (properties that measure output sizes, C12).
+	WsOnly bool
 }
 
 const hexdigits = "0123456789abcdef"
@@ -48,7 +51,7 @@ func uEsc(b *strings.Builder, c rune, upper bool) {
 func (sp Spelling) WriteString(b *strings.Builder, cp []rune) {
 	b.WriteByte('"')
 	for _, c := range cp {
-		if sp.Rnd != nil && c != 0xFFFD && sp.Rnd.Intn(5) == 0 {
+		if sp.Rnd != nil && !sp.WsOnly && c != 0xFFFD && sp.Rnd.Intn(5) == 0 {
 			// a random alternative spelling
 			switch {
 			case c == '/' && sp.Rnd.Intn(2) == 0:
